@@ -278,6 +278,7 @@ pub fn property() -> Property {
         id: "C13",
         cases,
         clauses: &["items-in-order-once", "terminates", "all-items-when-outliving-stream"],
+        full_rerun_check: true,
         assumptions: &[
             "a never-ending stream that is always ready is excluded: terminating it on stop relies on the fairness of the random tie-break (probabilistic, not a bounded-exploration property)",
             "the select! tie-break between mailbox and stream is explored as a choice at every poll of the loop",
